@@ -5,6 +5,7 @@
    model's order => bit-exact comparison; Minkowski goes through powf => tolerance. *)
 From Coq Require Import List ZArith Bool Floats.
 From SC Require Import Base.FloatUtil Base.Num C17.Model C17.F32.
+From SC Require C01.Model C01.Corr.
 Import ListNotations.
 
 Definition to_nat := N.to_nat.
@@ -100,3 +101,36 @@ Definition corr32_mahalanobis (nrows : N) (sinv : list (list Z)) (x y : list Z) 
   opt32_same (mahalanobis F32Ops (to_nat nrows) (m32 sinv) (v32 x) (v32 y)) expected.
 Definition corr32_cov (ncols : N) (rows : list (list Z)) (expected : option (list (list Z))) : bool :=
   option_eqb (list_eqb (list_eqb f32_same)) (cov F32Ops (to_nat ncols) (m32 rows)) (option_map m32 expected).
+
+(* ---------------- the constructors as a whole (structured covariances) ----------------
+   `Mahalanobis::new_from_covariance(cov)` stores sigmaInv = cov.lu().inverse() and
+   `Mahalanobis::new(data)` the same for cov = data.cov().  The LU factorisation and its inverse are
+   C01's model (SC.C01.Model.lu_mut / lu_inverse, compared bit for bit with the implementation by C01's
+   own correspondence); here the chain  [cov ->] LU inverse -> distance  is evaluated on small
+   structured covariances (integer, sparse, cancelling off-diagonal sums, exactly diagonal, ...) and
+   compared bit for bit with the stored inverse and the distance the implementation returned, so a
+   constructor that takes any other route to sigmaInv for some special shape of the covariance shows
+   up as a mismatch.  w32 = true runs C01's binary32 emulation (operands are binary32 values held in
+   binary64, every + - * / sqrt rounded once more to 24 bits). *)
+Definition lu_inverse_rows (O : Ops float) (n : nat) (A : list (list float)) : option (list (list float)) :=
+  let st := C01.Model.lu_mut O n n (C01.Model.of_rows O A) in
+  option_map (C01.Model.to_rows n n) (C01.Model.lu_inverse O n (C01.Model.lu_A st) (C01.Model.lu_piv st)).
+Definition maha_of_cov (O : Ops float) (n : nat) (sigma : list (list float)) (x y : list float) : option float :=
+  match lu_inverse_rows O n sigma with
+  | Some sinv => mahalanobis O n sinv x y
+  | None => None                                   (* `.unwrap()` of a singular matrix: panic *)
+  end.
+(* esinv: the implementation's stored inverse; expected: what distance(x, y) returned (None = panic) *)
+Definition corr_maha_from_cov (w32 : bool) (n : N) (sigma : list (list float)) (esinv : list (list float))
+           (x y : list float) (expected : option float) : bool :=
+  let O := C01.Corr.ops w32 in
+  option_eqb fmat_eq (lu_inverse_rows O (to_nat n) sigma) (Some esinv) &&
+  option_eqb feq (maha_of_cov O (to_nat n) sigma x y) expected.
+(* esigma: the implementation's stored covariance *)
+Definition corr_maha_from_data (w32 : bool) (ncols : N) (rows : list (list float))
+           (esigma esinv : list (list float)) (x y : list float) (expected : option float) : bool :=
+  let O := C01.Corr.ops w32 in
+  match cov O (to_nat ncols) rows with
+  | Some sigma => fmat_eq sigma esigma && corr_maha_from_cov w32 ncols sigma esinv x y expected
+  | None => false
+  end.
